@@ -39,11 +39,21 @@ package reorgdetector
 //@   trusted
 //@   modifies nothing
 
+// the hash of a header object as go-ethereum computes it (a function of the object; assumed, A4)
+//@ spec fn hdrHashOf(h *types.Header) Hash
+//@ extern (*github.com/ethereum/go-ethereum/core/types.Header).Hash@reorgdetector.(*ReorgDetector).detectReorgInTrackedList$1 (h)
+//@   modifies nothing
+//@   ensures result == hdrHashOf(h)
 //@ func (rd *ReorgDetector) detectReorgInTrackedList$1
 //@   props C06
 //@   requires rd != nil && rd.client != nil && rd.log != nil && hdrs != nil && lastFinalisedBlock != nil && lastFinalisedBlock.Number != nil && 0 <= bigval(lastFinalisedBlock.Number) && bigval(lastFinalisedBlock.Number) < 18446744073709551616
 //@   requires notifyCalls == 0 && headersCache != nil
 //@   modifies heap, notifyCalls, lastNotified, lastDropFrom, lastDropTo, dropCalls
+// detection proper: a subscriber is notified exactly for a tracked block whose stored hash differs from the hash of
+// the header the pass holds for that number, and a single row is dropped on its own only for a block whose hash still
+// matches and that is at or below the finalized block
+//@   assert call:notifySubscriber hdr.Hash != hdrHashOf(currentHeader)
+//@   assert call:removeTrackedBlockRange:0 hdr.Hash == hdrHashOf(currentHeader) && arg2 == hdr.Num && arg3 == hdr.Num
 //@   ensures[at-most-one-reorg-per-pass] notifyCalls <= 1
 //@   ensures[reorg-means-rewind-to-first-mismatch-then-drop] notifyCalls == 1 ==> (result == nil ==> lastDropFrom == lastNotified)
 //@   loop 0 invariant notifyCalls == 0 && headersCache != nil && rd != nil && rd.client != nil && rd.log != nil && hdrs != nil && lastFinalisedBlock != nil && lastFinalisedBlock.Number != nil
